@@ -39,7 +39,7 @@ from dsim.kernel import Violation
 
 NAME = "e3"
 CHUNK = 10
-RUNS = {"C12": (6000, 90000), "C14": (6000, 90000), "C18": (8000, 120000)}
+RUNS = {"C12": (6000, 250000), "C14": (6000, 250000), "C18": (8000, 300000)}
 RULE = ("one run = one seeded history of 4..25 storage operations (write / overwrite / read by "
         "route / restricted read / truncate / faulted write / faulted read) over <=6 documents "
         "inside each format's representable domain; non-trivial iff >=1 write was acknowledged "
